@@ -259,6 +259,11 @@ impl MockCluster {
         self.inner.log.lock().unwrap().clone()
     }
 
+    /// The sequence number the next log entry will get.
+    pub fn inner_seq(&self) -> u64 {
+        self.inner.seq.load(Ordering::SeqCst)
+    }
+
     pub fn log_len(&self) -> usize {
         self.inner.log.lock().unwrap().len()
     }
